@@ -253,8 +253,8 @@ def execute(sc, ctx) -> None:
 
         sim.write_hook = hook
         sim.fine_grained = True
-        sim.begin_op(0, budget=100000)
         reader = open_reader("C20", fs.paths)
+        sim.begin_op(0, budget=100000)  # after opening: R below counts the reads of the call itself (as the re-runs do)
         try:
             outs = invoke(name, reader, gold_dir, sc)
         except SimLivelock as e:
